@@ -135,10 +135,12 @@ Definition status_nodes (b : backend) (s : kspace) (app entry : bytes) : list by
 
 (* ================= correspondence cases: the stores ================= *)
 Record addc := mkAdd { a_app : string; a_entry : string; a_ident : string; a_node : string; a_id : string;
+                       a_acc : bool (* observed: DeployOptions.Validate(app, entry) and AddNodeOptions.Validate(node) return nil *);
                        a_ok : bool (* observed: AddWorkload returned nil *) }.
+(* acc: observed, every non-empty filter name passes the corresponding Validate *)
 Inductive query :=
-| QList (app entry node : string) (obs : option (list string))    (* observed ids, sorted; None = error *)
-| QStatus (app entry : string) (obs : list (string * N)).          (* observed node -> count, sorted by node *)
+| QList (app entry node : string) (acc : bool) (obs : option (list string))   (* observed ids, sorted; None = error *)
+| QStatus (app entry : string) (acc : bool) (obs : list (string * N)).         (* observed node -> count, sorted by node *)
 
 Record case := mkCase { c_backend : backend; c_adds : list addc; c_queries : list query }.
 
@@ -179,15 +181,22 @@ Fixpoint counts_eqb (a : list (bytes * N)) (b : list (string * N)) : bool :=
   | _, _ => false
   end.
 
+Definition accepted_add (a : addc) : bool :=
+  valid_app (s2l (a_app a)) && valid_entry (s2l (a_entry a)) && valid_node (s2l (a_node a)).
+Definition accepted_or_empty (valid : bytes -> bool) (n : string) : bool :=
+  match s2l n with [] => true | l => valid l end.
+
 Definition query_agrees (b : backend) (s : kspace) (q : query) : bool :=
   match q with
-  | QList app entry node obs =>
-      match obs with
-      | Some ids => bytes_list_eqb (sort_bytes (list_workloads b s (s2l app) (s2l entry) (s2l node))) (map s2l ids)
-      | None => false
-      end
-  | QStatus app entry obs =>
-      counts_eqb (count_runs (sort_bytes (status_nodes b s (s2l app) (s2l entry)))) obs
+  | QList app entry node acc obs =>
+      Bool.eqb acc (accepted_or_empty valid_app app && accepted_or_empty valid_entry entry && accepted_or_empty valid_node node)
+      && match obs with
+         | Some ids => bytes_list_eqb (sort_bytes (list_workloads b s (s2l app) (s2l entry) (s2l node))) (map s2l ids)
+         | None => false
+         end
+  | QStatus app entry acc obs =>
+      Bool.eqb acc (valid_app (s2l app) && valid_entry (s2l entry))
+      && counts_eqb (count_runs (sort_bytes (status_nodes b s (s2l app) (s2l entry)))) obs
   end.
 
 Fixpoint bools_eqb (a b : list bool) : bool :=
@@ -199,16 +208,15 @@ Fixpoint bools_eqb (a b : list bool) : bool :=
 
 Definition agree (c : case) : bool :=
   let '(s, oks) := build [] (c_adds c) in
-  bools_eqb oks (map a_ok (c_adds c)) && forallb (query_agrees (c_backend c) s) (c_queries c).
+  bools_eqb oks (map a_ok (c_adds c))
+  && forallb (fun a => Bool.eqb (a_acc a) (accepted_add a)) (c_adds c)
+  && forallb (query_agrees (c_backend c) s) (c_queries c).
 
 (* ---- boolean reflection of the property on the implementation's answers.
    It uses the names only (no keys, no cleaning, no prefixes): a query must return exactly the
    workloads CREATED UNDER those names.  It applies when every name involved is accepted by the
-   API's validation (ids and idents are generated by the system: non-empty hex strings). ---- *)
-Definition accepted_add (a : addc) : bool :=
-  valid_app (s2l (a_app a)) && valid_entry (s2l (a_entry a)) && valid_node (s2l (a_node a)).
-Definition accepted_or_empty (valid : bytes -> bool) (n : string) : bool :=
-  match s2l n with [] => true | l => valid l end.
+   API's validation AS OBSERVED on the implementation (a_acc / acc; ids and idents are generated
+   by the system: non-empty hex strings). ---- *)
 
 Definition created_under (app entry node : string) (a : addc) : bool :=
   a_ok a &&
@@ -224,23 +232,23 @@ Definition created_under (app entry node : string) (a : addc) : bool :=
 
 Definition query_ok (adds : list addc) (q : query) : bool :=
   match q with
-  | QList app entry node obs =>
-      if accepted_or_empty valid_app app && accepted_or_empty valid_entry entry && accepted_or_empty valid_node node
+  | QList app entry node acc obs =>
+      if acc
       then match obs with
            | Some ids => bytes_list_eqb (sort_bytes (map (fun a => s2l (a_id a)) (filter (created_under app entry node) adds)))
                                         (map s2l ids)
            | None => false
            end
       else true
-  | QStatus app entry obs =>
-      if valid_app (s2l app) && valid_entry (s2l entry)
+  | QStatus app entry acc obs =>
+      if acc
       then counts_eqb (count_runs (sort_bytes (map (fun a => s2l (a_node a))
                                    (filter (created_under app entry EmptyString) adds)))) obs
       else true
   end.
 
 Definition ok (c : case) : bool :=
-  if forallb accepted_add (c_adds c)
+  if forallb a_acc (c_adds c)
   then (* every workload (distinct ids) under accepted names can be created, and every query is exact *)
        forallb a_ok (c_adds c) && forallb (query_ok (c_adds c)) (c_queries c)
   else true.
